@@ -112,6 +112,7 @@ fn run_kind<P: SigmaProtocol, T: Tk, U: Tk>(f: &Fam<P>, r: &mut Rng, seed: u64) 
     let c = stmt.get_challenge(&proof.challenge);
     // the commit message as the verifier reconstructs it
     let cm = guarded(|| stmt.extract_commit_message(&c, &proof.response).map(|m| hex(&to_bytes(&m))));
+    let cm_hex: Option<String> = match &cm { Ok(Some(h)) => Some(h.clone()), _ => None };
     o.insert("cm".into(), match cm { Ok(Some(h)) => json!(h), Ok(None) => json!(null), Err(_) => json!("PANIC") });
     let vfy = |ctx: &Ctx, pubs: &[S], pr: &SigmaProof<P::Response>| -> J {
         match guarded(|| { let mut ro: T = mk_ro(ctx); let s = (f.mk)(pubs); let ok = verify(&mut ro, &s, pr); (ok, hex(ro.extract_raw_challenge().as_ref())) }) {
@@ -150,8 +151,13 @@ fn run_kind<P: SigmaProtocol, T: Tk, U: Tk>(f: &Fam<P>, r: &mut Rng, seed: u64) 
         rb2[off..off + 32].copy_from_slice(&to_bytes(&add(&x, &su(1))));
         let mut pb = proof.challenge.as_ref().to_vec(); pb.extend_from_slice(&rb2);
         match from_bytes::<SigmaProof<P::Response>, _>(&mut std::io::Cursor::new(&pb)) {
-            Ok(p2) => pert.push(json!([format!("resp{}", j), rej(vfy(&ctx, &f.pubs, &p2))])),
-            Err(_) => pert.push(json!([format!("resp{}", j), true])) }
+            Ok(p2) => {
+                // does the verifier's reconstruction change at all?  (it cannot when the base of this
+                // response component is the identity point: phi is not injective then)
+                let cm2 = guarded(|| stmt.extract_commit_message(&c, &p2.response).map(|m| hex(&to_bytes(&m))));
+                let same = match (&cm2, &cm_hex) { (Ok(Some(a)), Some(b)) => a == b, _ => false };
+                pert.push(json!([format!("resp{}", j), rej(vfy(&ctx, &f.pubs, &p2)), same])) }
+            Err(_) => pert.push(json!([format!("resp{}", j), true, false])) }
     }
     o.insert("pert".into(), json!(pert));
     println!("{}", base);
